@@ -63,7 +63,11 @@ def compute_signature(
             # Hash on UFL signature and points
             signature = ufl.algorithms.signature.compute_expression_signature(expr, rn)
             object_signature += signature
-            object_signature += repr(points)
+            # NOTE: repr(points) would abbreviate large arrays and round the
+            # entries, so hash the shape, the type and the exact values
+            points = np.ascontiguousarray(points)
+            object_signature += f"{points.shape}{points.dtype}"
+            object_signature += hashlib.sha1(points.tobytes()).hexdigest()
 
             kind = "expression"
         else:
